@@ -273,7 +273,44 @@ pub fn near_duplicate(text: &str, src: &mut Src) -> String {
         }
     };
     let mut out = cs.clone();
-    match src.below(9) {
+    match src.below(10) {
+        9 => {
+            // a number inside a backtick literal in another spelling of the same or a neighbouring
+            // value (1 / 1.0 / 1e0, 0 / -0.0, 100 / 1e2, n / n+1): caches that compare loosely
+            let mut spans: Vec<(usize, usize)> = vec![];
+            let mut i = 0;
+            while i < cs.len() {
+                if cs[i] == '`' {
+                    let mut j = i + 1;
+                    while j < cs.len() && cs[j].is_ascii_digit() {
+                        j += 1;
+                    }
+                    if j > i + 1 && j < cs.len() && cs[j] == '`' {
+                        spans.push((i + 1, j));
+                    }
+                    i = j.max(i + 1);
+                } else {
+                    i += 1;
+                }
+            }
+            if spans.is_empty() {
+                let lit = *src.pick(&["`1`", "`1.0`", "`0`", "`-0.0`", "`100`", "`1e2`", "`9007199254740992`", "`9007199254740993`", "`0.3`", "`0.30000000000000004`", "`18446744073709551615`", "`18446744073709551616`"]);
+                return format!("[{}, {}]", text, lit);
+            }
+            let (a, b2) = spans[src.below(spans.len())];
+            let digits: String = cs[a..b2].iter().collect();
+            let respelled = match src.below(5) {
+                0 => format!("{}.0", digits),
+                1 => format!("{}e0", digits),
+                2 => format!("{}.00", digits),
+                3 => format!("-{}", digits),
+                _ => format!("{}", digits.parse::<u64>().map(|v| v.wrapping_add(1)).unwrap_or(1)),
+            };
+            let mut o: Vec<char> = cs[..a].to_vec();
+            o.extend(respelled.chars());
+            o.extend(cs[b2..].iter());
+            out = o;
+        }
         7 => {
             // a character that some libraries call white space (but the grammar does not) at an end
             let c = *src.pick(WS_LIKE);
